@@ -788,7 +788,8 @@ package fs
 //@ spec fidx(v ref, x int) int
 //@ spec img(v ref, x int) int
 //@ pred fileBound(f ref, p str) := fcontent[f] == pcontent(p) && fsize[f] == psize(p)
-//@ pred wfISO(v *VirtualISO) := wfShape(v) && filesBound(v)
+//@ pred wfISO(v *VirtualISO) := wfShape(v) && filesBound(v) && pathsConfined(v)
+//@ pred pathsConfined(v *VirtualISO) := forall y {at(v.files, y).path} :: base(v.files) <= y && y < end(v.files) ==> confined(at(v.files, y).path)
 
 //@ pred wfShape(v *VirtualISO) := v != nil && v.fs != nil
 //@   && len(v.fsBuf) % 2048 == 0 && len(v.fsBuf) >= 40960 && len(v.fsBuf) < 1<<40
@@ -811,9 +812,12 @@ package fs
 //@   && (forall y, x {img(v, x), at(v.files, y).size} :: base(v.files) <= y && y < end(v.files) && fstart(v, y) <= x && x < fend(v, y) ==> img(v, x) == (x - fstart(v, y) < at(v.files, y).size ? pcontent(at(v.files, y).path)[x - fstart(v, y)] : 0))
 //@   && (forall x {img(v, x)} :: v.padAreaStart <= x && x < v.totalSize ==> img(v, x) == 0)
 //@ func fileItem.openOnDemand results(f, err)
-//@   tags C04,C09,C13
+//@   tags C04,C09,C13,C01
 //@   requires i != nil && fs != nil
+//@   requires[C01] confined(i.path) @member-path-confined
 //@   modifies i.file, fopen, fpos, iofaults
+//@   update hslotarr = mapset(hslotarr, f, (err == nil && old(i.file) == nil) ? parr(i) : hslotarr[f])
+//@   update hslotidx = mapset(hslotidx, f, (err == nil && old(i.file) == nil) ? pidx(i) : hslotidx[f])
 //@   ensures iofaults >= old(iofaults)
 //@   ensures err == nil ==> f != nil && i.file == f
 //@   ensures err == nil && old(i.file) != nil ==> f == old(i.file) && fopen == old(fopen) && fpos == old(fpos)
@@ -829,7 +833,7 @@ package fs
 
 // The buffer must not be the image's own metadata buffer (cannot happen from outside the package).
 //@ func VirtualISO.read results(n, err)
-//@   tags C04,C09
+//@   tags C04,C09,C13
 //@   safetytags C04,C09
 //@   any t int
 //@   requires wfISO(viso) && imgDef(viso) && off >= 0 && off < 1<<41 && buf.$arr != viso.fsBuf.$arr
@@ -845,6 +849,8 @@ package fs
 //@   ensures[C09,C07] 0 <= t && t < n ==> raw(buf, base(buf) + t) == img(viso, off + t) @content
 //@   ensures forall x {raw(buf, x)} :: x < base(buf) || x >= base(buf) + len(buf) ==> raw(buf, x) == old(raw(buf, x)) @frame-buf
 //@   ensures wfISO(viso) && iofaults >= old(iofaults)
+//@   ensures[C13] (forall g {fopen[g]} :: fopen[g] && !old(fopen[g]) && g != nil ==> hslotarr[g] == viso.files.$arr && base(viso.files) <= hslotidx[g] && hslotidx[g] < end(viso.files) && at(viso.files, hslotidx[g]).file == g) @member-files-opened-by-a-read-are-kept-in-the-file-list
+//@   loop filesList.filesToRead.1 invariant (forall g {fopen[g]} :: fopen[g] && !old(fopen[g]) && g != nil ==> hslotarr[g] == viso.files.$arr && base(viso.files) <= hslotidx[g] && hslotidx[g] < end(viso.files) && at(viso.files, hslotidx[g]).file == g) @opened-members-kept
 //@   loop filesList.filesToRead.1 invariant 0 <= $read && $remain >= 0 && $remain == len(old(buf)) - $read @counts
 //@   loop filesList.filesToRead.1 invariant $buf.$arr == old(buf).$arr && $buf.$off == old(buf).$off + $read && len($buf) == $remain && $buf.$cap == old(buf).$cap - $read @bufshape
 //@   loop filesList.filesToRead.1 invariant $offset == off + $read && $offset <= viso.padAreaStart @offset
@@ -877,7 +883,7 @@ package fs
 //@   ensures[C09] !viso.isClosed && (whence == 0 || whence == 1 || whence == 2) && (target < 0 || target > viso.totalSize) ==> err != nil && viso.offset == old(viso.offset) @range
 
 //@ func VirtualISO.Read results(n, err)
-//@   tags C04,C09
+//@   tags C04,C09,C13
 //@   safetytags C04,C09
 //@   any t int
 //@   requires wfISO(viso) && imgDef(viso) && viso.offset <= viso.totalSize && p.$arr != viso.fsBuf.$arr
@@ -889,9 +895,10 @@ package fs
 //@   ensures[C09] !viso.isClosed && old(viso.offset) < viso.totalSize && len(p) > 0 && iofaults == old(iofaults) && filesIntact(viso) ==> err == nil @no-spurious-error
 //@   ensures[C09,C07] 0 <= t && t < n ==> raw(p, base(p) + t) == img(viso, old(viso.offset) + t) @content
 //@   ensures wfISO(viso) && iofaults >= old(iofaults)
+//@   ensures[C13] (forall g {fopen[g]} :: fopen[g] && !old(fopen[g]) && g != nil ==> hslotarr[g] == viso.files.$arr && base(viso.files) <= hslotidx[g] && hslotidx[g] < end(viso.files) && at(viso.files, hslotidx[g]).file == g) @member-files-opened-by-a-read-are-kept-in-the-file-list
 
 //@ func VirtualISO.ReadAt results(n, err)
-//@   tags C04,C09
+//@   tags C04,C09,C13
 //@   safetytags C04,C09
 //@   any t int
 //@   requires wfISO(viso) && imgDef(viso) && off >= 0 && off < 1<<41 && p.$arr != viso.fsBuf.$arr
@@ -903,6 +910,7 @@ package fs
 //@   ensures[C09,C07] 0 <= t && t < n ==> raw(p, base(p) + t) == img(viso, off + t) @content
 //@   ensures n > 0 ==> off + n <= viso.totalSize
 //@   ensures wfISO(viso) && iofaults >= old(iofaults)
+//@   ensures[C13] (forall g {fopen[g]} :: fopen[g] && !old(fopen[g]) && g != nil ==> hslotarr[g] == viso.files.$arr && base(viso.files) <= hslotidx[g] && hslotidx[g] < end(viso.files) && at(viso.files, hslotidx[g]).file == g) @member-files-opened-by-a-read-are-kept-in-the-file-list
 
 // ---- decrypting view (C10, C04) ------------------------------------------------------------------
 
@@ -1021,6 +1029,8 @@ package fs
 // ---- image-kind detection and key discovery (C11), confinement (C01), handles (C13) -----------------
 
 //@ spec hexkey(c []int) []int         -- the 16 key bytes denoted by hex text c (encoding/hex is trusted)
+//@ ghost hslotarr map[int]int log       -- handle opened on demand -> backing array of the fileItem that keeps it
+//@ ghost hslotidx map[int]int log       -- ... and its absolute index there
 //@ ghost recOwner map[int]int          -- directory-record array -> 2*index (+1 for Joliet) of the directory item that owns it
 //@ ghost viewkeyarr map[int][]int     -- for a decrypting view: backing array and offset of the disc key it was built with
 //@ ghost viewkeyoff map[int]int
